@@ -435,4 +435,42 @@ example :
     decode (m.write 2 [9]) t 0 =
       some (.rec_ (.cons (.leaf .int [7]) (.cons (.enm 1 (.cons (.leaf .int [9]) .nil)) .nil))) := rfl
 
+/-! ### further non-vacuity examples (hypotheses of the theorems above are satisfiable) -/
+
+/-- `fields_disjoint_variant` / `offsets_agree_variant`: an enum with an inhabited
+    variant `V1(u8, u64)` next to an uninhabited one `V0(!)` has a layout -/
+example :
+    let vs := Vars.cons (.cons .never .nil) (.cons (.cons (.leaf .int 1 1) (.cons (.leaf .int 8 8) .nil)) .nil)
+    layoutOf (.enum vs) = some { size := 16, align := 8 } ∧
+    vs.get? 1 = some (.cons (.leaf .int 1 1) (.cons (.leaf .int 8 8) .nil)) ∧
+    (collectLayouts (.cons (.leaf .int 1 1) (.cons (.leaf .int 8 8) .nil))).isSome = true ∧
+    placement (.cons (.leaf .int 1 1) (.cons (.leaf .int 8 8) .nil)) 0 variantStart
+      = some [(0, 1, .leaf .int 1 1), (1, 8, .leaf .int 8 8)] :=
+  ⟨rfl, rfl, rfl, rfl⟩
+
+/-- `uninhabited_variant_skipped`: `V0(!)` is such a variant -/
+example : collectLayouts (.cons .never .nil) = none := rfl
+
+/-- `location_total` / `read_component`: a valid path through a record and an inhabited variant -/
+example :
+    let e := Ty.enum (.cons (.cons (.leaf .int 8 8) .nil) .nil)
+    PathOk (.record (.cons (.leaf .int 1 1) (.cons e .nil))) [.field 1, .variantField 0 0] (.leaf .int 8 8) :=
+  .field rfl (.variant (ls := [(.leaf .int 8 8, Layout.new 8 8)]) rfl rfl rfl (.nil _))
+
+/-- `eq_structural_exact`: byte equality is a leaf comparison satisfying its hypothesis -/
+example : ∀ (k : LeafKind) (x y : List Nat), (fun _ x y => decide (x = y)) k x y = true ↔ x = y := by
+  intro k x y; simp
+
+/-- `clone_list_same_handle`: an 8-byte list handle is reproduced verbatim -/
+example :
+    let m : Mem := fun x => x
+    (cloneTy (.leaf .list 8 8) 16 64 m).read 64 8 = [16, 17, 18, 19, 20, 21, 22, 23] := by decide
+
+/-- `generated_functions_total` / `reference_types_are_pointers`: what the model
+    answers for `{a: (), b: String}` -/
+example :
+    let t := Ty.record (.cons .unit (.cons (.leaf .string 16 8) .nil))
+    isReferenceType t = some true ∧ lowerType t = .ok (some .pointer) ∧
+    isReferenceType .unit = some false ∧ lowerType .unit = .ok none := ⟨rfl, rfl, rfl, rfl⟩
+
 end RotoV.C02
